@@ -9,6 +9,8 @@ import H2.Proofs.PairCredit
 -- @also H2.PairCredit.data_never_overruns
 import H2.Proofs.StreamLemmas
 import H2.Proofs.SendHeaders
+import H2.Proofs.OutWin
+import H2.Props.C29
 
 namespace H2.C03
 open H2 H2.Gen H2.Conn
@@ -198,6 +200,108 @@ theorem C03_conn_window_update (c : Conn) (incr : Int) (hopen : c.cstate ≠ .CL
   simp only [this, if_false]
   wps
   simp
+
+/-! ### along every history -/
+
+theorem cw_of_run {α : Type} (f : α → Val) (m : CM α) (c : Conn)
+    (hk : wp m (fun _ c' => CW c') (fun _ c' => CW c') c) :
+    CW (match m c with | (r, c') => (c', ({ res := resOf f r } : Obs))).1 := by
+  unfold wp at hk
+  cases hm : m c with
+  | mk r c' =>
+    rw [hm] at hk
+    cases r <;> exact hk
+
+theorem cw_of_runU (m : CM Unit) (c : Conn) (hk : wp m (fun _ c' => CW c') (fun _ c' => CW c') c) : CW (runU m c).1 :=
+  cw_of_run _ m c hk
+theorem cw_of_runI (m : CM Int) (c : Conn) (hk : wp m (fun _ c' => CW c') (fun _ c' => CW c') c) : CW (runI m c).1 :=
+  cw_of_run _ m c hk
+
+/-- one public call keeps the connection's outbound window within `0 … 2^31-1`, whether it returns or raises -/
+theorem C03_call_keeps_conn_window (c : Conn) (op : Op) (hop : ∀ d, op ≠ .recv d) (h : CW c) : CW (step c op).1 := by
+  cases op with
+  | recv d => exact absurd rfl (hop d)
+  | initiateConnection =>
+    show CW (runU (initiateConnection) c).1
+    exact cw_of_runU _ c (cw_of_po (po_apiInitiate c) h)
+  | initiateUpgrade hdr => exact cw_of_run _ _ c (cw_of_po (po_apiUpgrade hdr c) h)
+  | sendHeaders sid hs es pw pd pe =>
+    show CW (runU (sendHeaders sid hs es pw pd pe) c).1
+    exact cw_of_runU _ c (cw_of_po (po_apiSendHeaders sid hs es pw pd pe c) h)
+  | pushStream sid p hs =>
+    show CW (runU (pushStream sid p hs) c).1
+    exact cw_of_runU _ c (cw_of_po (po_apiPushStream sid p hs c) h)
+  | sendData sid d es pad =>
+    show CW (runU (sendData sid d es pad) c).1
+    exact cw_of_runU _ c (cw_apiSendData sid d es pad c h)
+  | endStream sid =>
+    show CW (runU (endStream sid) c).1
+    exact cw_of_runU _ c (cw_of_po (po_apiEndStream sid c) h)
+  | incrementWindow i sid =>
+    show CW (runU (incrementFlowControlWindow i sid) c).1
+    exact cw_of_runU _ c (cw_of_po (po_apiIncrementWindow i sid c) h)
+  | ping d =>
+    show CW (runU (ping d) c).1
+    exact cw_of_runU _ c (cw_of_po (po_apiPing d c) h)
+  | resetStream sid code =>
+    show CW (runU (resetStream sid code) c).1
+    exact cw_of_runU _ c (cw_of_po (po_apiResetStream sid code c) h)
+  | closeConnection code extra last =>
+    show CW (runU (closeConnection code extra last) c).1
+    exact cw_of_runU _ c (cw_of_po (po_apiCloseConnection code extra last c) h)
+  | updateSettings items =>
+    show CW (runU (updateSettings items) c).1
+    exact cw_of_runU _ c (cw_of_po (po_apiUpdateSettings items c) h)
+  | altsvc f o sid =>
+    show CW (runU (advertiseAlternativeService f o sid) c).1
+    exact cw_of_runU _ c (cw_of_po (po_apiAltsvc f o sid c) h)
+  | prioritize sid w d e =>
+    show CW (runU (prioritize sid w d e) c).1
+    exact cw_of_runU _ c (cw_of_po (po_apiPrioritize sid w d e c) h)
+  | ackData size sid =>
+    show CW (runU (acknowledgeReceivedData size sid) c).1
+    exact cw_of_runU _ c (cw_of_po (po_apiAckData size sid c) h)
+  | dataToSend n => exact cw_of_run _ _ c (cw_of_po (po_apiDataToSend n c) h)
+  | clearOut =>
+    show CW (runU (clearOutboundDataBuffer) c).1
+    exact cw_of_runU _ c (cw_of_po (po_apiClearOut c) h)
+  | query q =>
+    cases q with
+    | localWindow sid => exact cw_of_runI _ c (cw_of_po (po_apiLocalWindow sid c) h)
+    | remoteWindow sid => exact cw_of_runI _ c (cw_of_po (po_apiRemoteWindow sid c) h)
+    | nextStreamId => exact cw_of_runI _ c (cw_of_po (po_apiNextStreamId c) h)
+    | openOut => exact cw_of_runI _ c (cw_of_po (po_apiOpenOut c) h)
+    | openIn => exact cw_of_runI _ c (cw_of_po (po_apiOpenIn c) h)
+    | inboundWindow =>
+      refine cw_of_runI (do let c ← getS; pure c.inWM.current_window_size) c ?_
+      wps; exact h
+
+/-- `receive_data` keeps it for every byte string (a WINDOW_UPDATE increment is at least 1 because the frame parser
+    rejects the others; the sum is checked against 2^31-1 by the regenerated `guard_increment_window`) -/
+theorem C03_recv_keeps_conn_window (c : Conn) (d : Bytes) (h : CW c) (hh : HbOk c.fb.headersBuffer) :
+    CW (step c (.recv d)).1 := by
+  have := receiveData_cw d c h hh
+  simp only [step]
+  cases hr : receiveData d c with
+  | mk r c' =>
+    rw [hr] at this
+    cases r <;> exact this
+
+/-- **the connection's outbound window never goes negative (and never passes 2^31-1)**, in every state reachable from a
+    fresh connection by any public calls and any received bytes: whatever was sent so far was covered by the initial
+    65535 octets plus the peer's WINDOW_UPDATE frames -/
+theorem C03_conn_window_every_history (cfg : Config) (c : Conn) (h : C29.Reachable cfg c) :
+    0 ≤ c.outWin ∧ c.outWin ≤ 2147483647 := by
+  show CW c
+  induction h with
+  | init => cases hc : cfg.client <;> simp [CW, Conn.init, hc, client_init_out_window, server_init_out_window]
+  | call c op hr hop ih =>
+    refine C03_call_keeps_conn_window c op ?_ ih
+    intro d hd; subst hd; exact hop
+  | recv c d dec hr hd ih =>
+    have hinv := C29.C29_reachable_invariant cfg c hr
+    have hi := C17.C17_feed c [] dec hinv.1 hd
+    exact C03_recv_keeps_conn_window (C17.feed c [] dec) d ih hi.2
 
 /-- non-vacuity -/
 example : fcLen [1, 2, 3] (some 5) = 9 ∧ fcLen [1, 2, 3] none = 3 := by decide
